@@ -153,6 +153,7 @@ structure St where
   tDims : List String := []
   tCfgText : String := ""
   tArr : List (Nat × JMsg) := []          -- written points, reversed
+  tBin : List (Nat × JMsg) := []          -- batches that entered the join of a batch task, reversed
   runs : List RunRec := []
   branches : List String := []
   nontrivial : Bool := false
@@ -289,15 +290,45 @@ def judgeLine (st : St) (l : String) : Except Verdict St := do
     let some rn := unesc ((kvGet m "rename").getD "%") | throw (.badop l)
     if obs != ["ok"] then throw (.mismatch s!"task new: observed {obs}")
     pure { st with kind := "task", tKind := (kvGet m "kind").getD "", jcfg := cfg, tDims := dims, uRename := rn,
-                   tCfgText := " ".intercalate rest, tArr := [] }
+                   tCfgText := " ".intercalate rest, tArr := [], tBin := [] }
   | "task" :: "w" :: src :: t :: rest =>
     let some src := src.toNat? | throw (.badop l)
     let some t := t.toInt? | throw (.badop l)
     let some msg := parseMsg t (s!"name=m{src}" :: ("dims=" ++ renderList (st.tDims.map esc)) :: rest) | throw (.badop l)
     if src ≥ st.jcfg.parents || st.kind != "task" then throw (.badop l)
     pure { st with tArr := (src, msg) :: st.tArr }
+  | "task" :: "bin" :: src :: t :: rest =>
+    -- a batch that entered the join of a real batch task (recorded by the sink in front of it)
+    let some src := src.toNat? | throw (.badop l)
+    let some t := t.toInt? | throw (.badop l)
+    let some msg0 := parseMsg t rest | throw (.badop l)
+    let some pts := parsePts ((kvGet (kvOf rest) "pts").getD "-") | throw (.badop l)
+    if src ≥ st.jcfg.parents || st.kind != "task" then throw (.badop l)
+    pure { st with tBin := (src, { msg0 with points := pts, dims := (sortPairs msg0.tags).map (·.1) }) :: st.tBin }
   | ["task", "run"] =>
     if st.kind != "task" then throw (.badop s!"{l}: no task")
+    if st.tKind == "joinb" then
+      let arrivals := st.tBin.reverse
+      let some k := obs.head?.bind String.toNat? | throw (.specfail "task-total" s!"the batch task failed: {obs}")
+      let got := sortStrings (obs.drop 1)
+      if k != got.length then throw (.badop l)
+      let steps := arrivals.map (fun a => (a.1, a.2.grp, a.2.time))
+      if !decide (Spec.joinOrdered st.jcfg steps) || !decide (Spec.batchPointsOrdered st.jcfg arrivals) then
+        throw (.badop s!"{l}: unordered batches entered the join")
+      let want := sortStrings ((Spec.joinBatchOutput st.jcfg arrivals).map renderBOut)
+      if want != got then throw (.specfail "join-batches-by-occurrence" s!"real batch task: spec {want} observed {got}")
+      let mut nd := JNode.init
+      let mut sets : List (JSet JMsg) := []
+      for (src, msg) in arrivals do
+        let (nd', ss, stt) := nd.point st.jcfg src msg
+        if stt != .ok then throw (.mismatch s!"{l}: model status {statusTok stt}")
+        nd := nd'; sets := sets ++ ss
+      let (_, ss, stt) := JNode.finish nd.groups
+      if stt != .ok then throw (.mismatch s!"{l}: model status {statusTok stt}")
+      let mdl := sortStrings (((sets ++ ss).filterMap (joinIntoBatch st.jcfg)).map renderBOut)
+      let st := if mdl != got then noteMM st s!"real batch task join: model {mdl} observed {got}" else st
+      let st := addBrs st (["task-join-batch"] ++ (if got.any (fun t => !(t.endsWith ";0")) then ["task-join-batch-points"] else []))
+      return { st with tBin := [], nontrivial := st.nontrivial || !got.isEmpty }
     let arrivals := st.tArr.reverse
     let some k := obs.head?.bind String.toNat? | throw (.specfail "task-total" s!"the task failed: {obs}")
     let toks := obs.drop 1
